@@ -40,12 +40,17 @@ Inductive iterkind : Set := ItString | ItTuple | ItVec | ItRange.
      suspended  = frames >= 1, ip elsewhere, no caller
      running    = has a caller (it called into the current fiber, or IS the current fiber)
      finished   = frames 0
-   [AKClosure arity]: ObjFunction.arity, which counts slot 0 (so [|x| ..] has arity 2). *)
+   [AKClosure arity]: ObjFunction.arity, which counts slot 0 (so [|x| ..] has arity 2).
+   [AKIter k cursor len]: the iterator's cursor ([current] / [pos]; for a range iterator the number
+   of steps taken) and the CURRENT length of the iterated container (for a range: |end - begin|).
+   A vec can shrink under a live iterator, so for [ItVec] the cursor may exceed the length;
+   tuples and strings are immutable and ranges are walked one step at a time, so there
+   cursor <= len is an invariant ([ak_wf]). *)
 Inductive akind : Set :=
 | AKNil | AKBool | AKNum (c : numclass) | AKStr
 | AKTuple (hashable : bool) | AKVec (len : N) | AKRange | AKMap
 | AKClass | AKInstance | AKClosure (arity : N) | AKNative | AKBound
-| AKIter (k : iterkind)
+| AKIter (k : iterkind) (cursor len : N)
 | AKFiber (frames : N) (at_start : bool) (has_caller : bool) (call_arity : N)
 | AKModule.
 
@@ -57,6 +62,8 @@ Definition ak_wf (a : akind) : bool :=
   | AKClosure ar => (1 <=? ar)%N
   | AKFiber _ _ _ ar => (1 <=? ar)%N && (ar <=? 2)%N
   | AKVec len => (Z.of_N len <=? isize_max)%Z
+  | AKIter ItVec _ _ => true
+  | AKIter _ cursor len => (cursor <=? len)%N
   | _ => true
   end.
 
@@ -77,7 +84,7 @@ Inductive ekind : Set := EAttribute | EImport | EIndex | EName | ERuntime | ETyp
    value / anything *)
 Inductive rkind : Set :=
 | RKNil | RKBool | RKNum | RKStr | RKTuple | RKVec | RKClass | RKInstance
-| RKIter (k : iterkind) | RKFiber | RKRecv | RKAny.
+| RKIter (k : iterkind) | RKFiber | RKRecv | RKStop | RKAny.
 
 Inductive outcome : Set :=
 | NOk (r : rkind)
@@ -103,6 +110,25 @@ Definition with_hash_map_key (key : akind) (k : outcome) : outcome :=
   if negb (has_hash key)
   then NErr EValue "Cannot use unhashable value '{}' as HashMap key."
   else if has_hash key then k else NPanic "value.rs:Hash for Value:Unhashable value type".
+
+(* object.rs ObjVecIter::next / ObjTupleIter::next:
+     if self.current <cmp> elements.len() { return None }  let ret = elements[self.current]; ...
+   [None] becomes the StopIter sentinel in core.rs.  The comparison operator is a parameter so that
+   NativesProofs can say which operators are safe; [run_native] uses the one the source has
+   (props/C02.v compares it with the regenerated gen/NativesSrc.src_iter_guards). *)
+Inductive itercmp : Set := CmpGe | CmpEq.
+
+Definition iter_at_end (c : itercmp) (cursor len : N) : bool :=
+  match c with CmpGe => (len <=? cursor)%N | CmpEq => (cursor =? len)%N end.
+
+Definition indexed_iter_next (site : string) (c : itercmp) (cursor len : N) : outcome :=
+  if iter_at_end c cursor len then NOk RKStop
+  else if (cursor <? len)%N then NOk RKAny else NPanic site.
+
+Definition vec_iter_cmp : itercmp := CmpGe.
+Definition tuple_iter_cmp : itercmp := CmpGe.
+
+Definition show_itercmp (c : itercmp) : string := match c with CmpGe => ">=" | CmpEq => "==" end.
 
 (* common.rs VEC_ELEMS_MAX = isize::MAX as usize + 1 *)
 Definition VEC_ELEMS_MAX : N := 9223372036854775808%N.
@@ -255,7 +281,7 @@ Definition run_native (in_fiber : bool) (n : native) (recv : akind) (args : list
   | StringIter_next =>
     check_num_args na 0
       (match recv with
-       | AKIter ItString => NDeleg "StrFns.string_iter_next"
+       | AKIter ItString _ _ => NDeleg "StrFns.string_iter_next"
        | _ => NPanic "core.rs:string_iter_next:expect ObjIter instance"
        end)
   | Tuple_len =>
@@ -270,7 +296,8 @@ Definition run_native (in_fiber : bool) (n : native) (recv : akind) (args : list
   | TupleIter_next =>
     check_num_args na 0
       (match recv with
-       | AKIter ItTuple => NOk RKAny
+       | AKIter ItTuple cursor len =>
+         indexed_iter_next "object.rs:ObjTupleIter::next:elements[current]" tuple_iter_cmp cursor len
        | _ => NPanic "core.rs:tuple_iter_next:expect ObjTupleIter instance"
        end)
   | Vec_push =>
@@ -300,7 +327,8 @@ Definition run_native (in_fiber : bool) (n : native) (recv : akind) (args : list
   | VecIter_next =>
     check_num_args na 0
       (match recv with
-       | AKIter ItVec => NOk RKAny
+       | AKIter ItVec cursor len =>
+         indexed_iter_next "object.rs:ObjVecIter::next:elements[current]" vec_iter_cmp cursor len
        | _ => NPanic "core.rs:vec_iter_next:expect ObjVecIter instance"
        end)
   | Range_iter =>
@@ -312,7 +340,9 @@ Definition run_native (in_fiber : bool) (n : native) (recv : akind) (args : list
   | RangeIter_next =>
     check_num_args na 0
       (match recv with
-       | AKIter ItRange => NOk RKAny
+       | AKIter ItRange cursor len =>
+         (* object.rs ObjRangeIter::next: if current == end { None } - no indexing *)
+         if (cursor =? len)%N then NOk RKStop else NOk RKNum
        | _ => NPanic "core.rs:range_iter_next:expect ObjIter instance"
        end)
   | Map_has_key => map_key_method "has_key" na 1 recv args RKBool
@@ -384,13 +414,13 @@ Definition dispatch_ok (n : native) (recv : akind) : bool :=
   | String_count_chars | String_char_byte_index | String_find | String_replace | String_split
   | String_starts_with | String_ends_with | String_to_num | String_to_bytes
   | String_to_code_points => match recv with AKStr => true | _ => false end
-  | StringIter_next => match recv with AKIter ItString => true | _ => false end
+  | StringIter_next => match recv with AKIter ItString _ _ => true | _ => false end
   | Tuple_len | Tuple_iter => match recv with AKTuple _ => true | _ => false end
-  | TupleIter_next => match recv with AKIter ItTuple => true | _ => false end
+  | TupleIter_next => match recv with AKIter ItTuple _ _ => true | _ => false end
   | Vec_push | Vec_pop | Vec_len | Vec_iter => match recv with AKVec _ => true | _ => false end
-  | VecIter_next => match recv with AKIter ItVec => true | _ => false end
+  | VecIter_next => match recv with AKIter ItVec _ _ => true | _ => false end
   | Range_iter => match recv with AKRange => true | _ => false end
-  | RangeIter_next => match recv with AKIter ItRange => true | _ => false end
+  | RangeIter_next => match recv with AKIter ItRange _ _ => true | _ => false end
   | Map_has_key | Map_get | Map_insert | Map_remove | Map_clear | Map_len | Map_keys
   | Map_values | Map_items => match recv with AKMap => true | _ => false end
   | Fiber_call | Fiber_has_finished =>
@@ -533,7 +563,7 @@ Definition wide_step_ok (j : N) : bool :=
    5-tuple is the receiver.  Tags: 0 Nil, 1 Bool, 2 Num (p1: 0 NaN, 1 +inf, 2 -inf, 3 frac,
    4 int with p2 = sign (1 = negative) and p3 = magnitude), 3 Str, 4 Tuple (p1 hashable),
    5 Vec (p1 len), 6 Range, 7 Map, 8 Class, 9 Instance, 10 Closure (p1 arity), 11 Native,
-   12 Bound, 13 Iter (p1: 0 String 1 Tuple 2 Vec 3 Range), 14 Fiber (frames at_start has_caller
+   12 Bound, 13 Iter (p1: 0 String 1 Tuple 2 Vec 3 Range, p2 cursor, p3 len), 14 Fiber (frames at_start has_caller
    arity), 15 Module. *)
 
 Definition nb (n : N) : bool := negb (n =? 0)%N.
@@ -547,7 +577,7 @@ Definition akind_of_wire (t p1 p2 p3 p4 : N) : akind :=
                 end)
   | 3 => AKStr | 4 => AKTuple (nb p1) | 5 => AKVec p1 | 6 => AKRange | 7 => AKMap
   | 8 => AKClass | 9 => AKInstance | 10 => AKClosure p1 | 11 => AKNative | 12 => AKBound
-  | 13 => AKIter (match p1 with 0 => ItString | 1 => ItTuple | 2 => ItVec | _ => ItRange end)
+  | 13 => AKIter (match p1 with 0 => ItString | 1 => ItTuple | 2 => ItVec | _ => ItRange end) p2 p3
   | 14 => AKFiber p1 (nb p2) (nb p3) p4
   | _ => AKModule
   end%N.
@@ -575,7 +605,8 @@ Definition show_rkind (r : rkind) : string :=
   match r with
   | RKNil => "Nil" | RKBool => "Bool" | RKNum => "Num" | RKStr => "String" | RKTuple => "Tuple"
   | RKVec => "Vec" | RKClass => "class" | RKInstance => "instance"
-  | RKIter k => show_iterkind k | RKFiber => "Fiber" | RKRecv => "recv" | RKAny => "any"
+  | RKIter k => show_iterkind k | RKFiber => "Fiber" | RKRecv => "recv" | RKStop => "StopIter"
+  | RKAny => "any"
   end.
 
 Definition show_outcome (o : outcome) : string :=
@@ -688,3 +719,22 @@ Definition rows_match (src model : list src_row) : bool :=
   forallb (fun r => existsb (row_eqb r) model) src
   && forallb (fun r => existsb (row_eqb r) src) model
   && Nat.eqb (List.length src) (List.length model).
+
+(* the comparison operators of the iterator guards, in the format of gen/NativesSrc.src_iter_guards *)
+Definition model_vec_iter_guard : string := show_itercmp vec_iter_cmp.
+Definition model_tuple_iter_guard : string := show_itercmp tuple_iter_cmp.
+
+Fixpoint guard_of (name : string) (l : list (string * string)) : string :=
+  match l with
+  | [] => "?"
+  | (n, g) :: r => if String.eqb n name then g else guard_of name r
+  end.
+
+(* the vec guard must be the model's [>=] (a vec can shrink under a live iterator: NativesProofs
+   indexed_iter_next_eq_refuted); tuples and strings are immutable, so [==] and [>=] are both total
+   there (indexed_iter_next_eq_bounded); the range iterator does not index *)
+Definition iter_guards_ok (l : list (string * string)) : bool :=
+  String.eqb (guard_of "ObjVecIter" l) model_vec_iter_guard
+  && (String.eqb (guard_of "ObjTupleIter" l) ">=" || String.eqb (guard_of "ObjTupleIter" l) "==")
+  && (String.eqb (guard_of "ObjStringIter" l) "==" || String.eqb (guard_of "ObjStringIter" l) ">=")
+  && String.eqb (guard_of "ObjRangeIter" l) "==".
